@@ -43,6 +43,7 @@ META = {
         "the single-send reference; plain-valued attributes of the broker and of the shared kicker are part of the fingerprint. "
         "distinct_nontrivial = distinct reference sequences exercised."
         " Fault-overlap family (mc/fault_overlap.py): message X suffers one fault out of {pre_execute/post_execute/post_save/on_error hook, sync or async ack, result backend} x {RuntimeError, CancelledError, TimeoutError}, backend failing once, body raise/CancelledError/timeout/no-result, malformed/unknown message, broker stream error, while the healthy message Y has suspension points before, inside and after its function and the stop request may arrive at any point; Y's hook sequence equals the reference whenever its processing ends (also after a broker stream error), X's for body outcomes and backend failures."
+        " Repeated faults (mc/fault_overlap.py::repeats): the same fault k times in a row (k in 3..6; thorough up to 10) on one worker, then healthy messages - a counter, pool, budget or throttle inside the worker must not change what happens at the k-th occurrence. Three messages in processing at once, each parked in one gated hook (incl. three failing messages inside on_error together)."
     ),
     "assumptions": [
         "hooks are recording TaskiqMiddleware subclasses generated per case; 'overridden' is what the class defines",
@@ -171,6 +172,16 @@ def worker_scenarios(tier: str) -> List[Dict[str, Any]]:
             out.append({"A": 2, "P": 0, "N": None, "stream": "finite", "stop": False, "level": 0,
                         "msgs": [dict(OUTCOMES[o], body="immediate" if OUTCOMES[o].get("outcome") != "never" else "gated")],
                         "mws": st})
+    # three messages in processing at once, each parked in one gated hook (the others sync): e.g. three
+    # failing messages inside on_error together
+    for hook in W_HOOKS:
+        for outs in (("raise", "raise", "raise"), ("return", "raise", "return")):
+            if hook == "on_error" and "raise" not in outs:
+                continue
+            hooks3 = {h: ("gated" if h == hook else "sync") for h in W_HOOKS}
+            out.append({"A": 3, "P": 1, "N": None, "stream": "finite", "stop": False, "level": 0,
+                        "msgs": [dict(OUTCOMES[o], body="immediate") for o in outs],
+                        "mws": [{"hooks": hooks3, "replace": True}, {"hooks": {h: "sync" for h in W_HOOKS}, "replace": False}]})
     # concurrency: 2 messages, 2 middlewares, every hook gated
     gated = {"hooks": {h: "gated" for h in W_HOOKS}, "replace": True}
     pairs = [("return", "raise"), ("raise", "noresult"), ("savefail", "return")] if tier == "quick" else list(itertools.product(list(OUTCOMES)[:4], repeat=2))
@@ -337,6 +348,10 @@ def fault_family(tier: str) -> List[Dict[str, Any]]:
             k, d = sc["fault"]
             sc["relax_x"] = k in ("hook", "ack", "junk") or (k == "save" and d == "cancel")
             out.append(sc)
+    for sc in fo.repeats(tier, ks=(3, 4) if tier == "quick" else (3, 4, 5, 6), tail=1):
+        k, d = sc["fault"]
+        sc["relax_x"] = k in ("hook", "ack", "junk") or (k == "save" and d == "cancel")
+        out.append(sc)
     return out
 
 
